@@ -28,7 +28,7 @@ LEVEL_NOTE = ("Tolerance 1e-6 relative to the largest contributing node (float32
 RULE = ("case = one world x 3 subgrids x 2000 positions (kinds: random nodes, per-level linear, linear in x,y,z over a flat bottom). Non-trivial: land faces contribute, positions "
         "on edges/rim and depths outside the level range are present; distinct by world parameters.")
 MANDATORY = ["positions_compared", "land_face_contributes", "depth_above_top_level", "depth_below_bottom_level", "depth_on_level", "edge_tie_positions", "rim_positions",
-             "packed_storage", "subgrid_pairs_compared", "scalar_values_compared", "linear_levels_exact", "linear3d_exact", "convexity_checked", "vtransform2", "e2e_displacements_checked", "e2e_scalar_values_checked"]
+             "packed_storage", "packed_with_different_scale_factors", "subgrid_pairs_compared", "scalar_values_compared", "linear_levels_exact", "linear3d_exact", "convexity_checked", "vtransform2", "e2e_displacements_checked", "e2e_scalar_values_checked"]
 ASSUMPTIONS = ["add_offset of packed u/v is zero (the code documents that it ignores it)", "positions inside the valid region of every subgrid used"]
 TIMEOUT = {"quick": 900, "thorough": 3400}
 
@@ -204,7 +204,8 @@ def run_case(case: dict[str, Any], wd: Path) -> dict[str, Any]:
                 scalars=dict(temp=dict(kind="random", seed=case["idx"], lo=-2.0, hi=25.0), salt=dict(kind="random", seed=case["idx"] + 1, lo=0.0, hi=35.0)),
                 metric=dict(kind="uniform", dx=800.0, dy=800.0))
     if packed:
-        spec["pack"] = dict(u=1.0e-4, v=1.0e-4, temp=(0.001, 10.0), salt=(0.001, 17.0))
+        spec["pack"] = dict(u=1.0e-4, v=float(rng.choice([1.0e-4, 4.0e-5, 2.5e-4])), temp=(0.001, 10.0), salt=(0.001, 17.0))
+        sit_pack_differs = spec["pack"]["u"] != spec["pack"]["v"]
     w = W.write_world(wd / "w", spec)
     raw = read_frame0(w["files"], ["u", "v", "temp", "salt"])
     with Dataset(w["gridfile"]) as nc:
@@ -377,6 +378,7 @@ def run_case(case: dict[str, Any], wd: Path) -> dict[str, Any]:
     sit["edge_tie_positions"] = int(np.sum(tieX | tieY))
     sit["rim_positions"] = 80
     sit["packed_storage"] = int(packed)
+    sit["packed_with_different_scale_factors"] = int(bool(packed) and spec["pack"]["u"] != spec["pack"]["v"])
     sit["vtransform2"] = int(Vt == 2)
     # --- oracle-free exactness
     if kind == "linear_levels":
